@@ -21,6 +21,7 @@ const contractFileName = "zz_contracts_verif.go"
 const modulePath = "github.com/megaease/easegress"
 
 type Registry struct {
+	lemmaTerms map[string]*Term // proved lemmas of this run, by "pkgpath.name" (flag lemmas=…)
 	repo      string
 	verifDir  string
 	fset      *token.FileSet
